@@ -219,11 +219,12 @@ def big_programs(tier):
 
 def c20_programs(tier, seed, rnd):
     q = tier == "quick"
-    plans = [("control", A_CONTROL, 6 if q else 7, 1200 if q else 12000),
-             ("effects", A_EFFECTS, 5 if q else 6, 800 if q else 8000),
-             ("loops", A_LOOPS, 6 if q else 8, 800 if q else 8000),
-             ("degen", A_DEGEN, 6 if q else 7, 2500 if q else 25000),
-             ("uninit", A_UNINIT, 6 if q else 7, 1200 if q else 12000)]
+    plans = [("control", A_CONTROL, 6 if q else 7, 800 if q else 12000),
+             ("effects", A_EFFECTS, 6 if q else 7, 600 if q else 8000),
+             ("loops", A_LOOPS, 6 if q else 7, 500 if q else 8000),
+             ("nest", A_NEST, 8 if q else 9, 600 if q else 6000),
+             ("degen", A_DEGEN, 8 if q else 9, 12000 if q else 150000),
+             ("uninit", A_UNINIT, 6 if q else 7, 800 if q else 10000)]
     progs, results = [], []
     for name, alpha, n, cap in plans:
         c = dict(alpha)
@@ -232,7 +233,10 @@ def c20_programs(tier, seed, rnd):
         rs, res = gen.run_builder(c, "c20_" + name, workers=8, timeout=1500, cap=cap, rnd=rnd)
         results.append(res)
         for p in rs:
-            progs.append(with_vars(finalize(p), c))
+            p = with_vars(finalize(p), c)
+            if name == "degen":
+                p["smallgrid"] = 1          # many shapes, few settings (crashes on degenerate shapes do not depend on the version)
+            progs.append(p)
     progs += big_programs(tier)
     return progs, results
 
